@@ -399,6 +399,9 @@ func ruleAddrDeps(c *Ctx, rule string) {
 			if g == nil {
 				bad = "returns an element at " + w.instrPos(ret) + " without AddrEqual(element.Peer, addr) being true"
 			}
+			if !derivesFromTable(w, v, w.Field("allocation", "Allocation", "channelBindings")) {
+				bad = "returns " + w.desc(v) + " at " + w.instrPos(ret) + ", which is not an element read from the live channelBindings table (a remembered binding survives its expiry)"
+			}
 		}
 		if bad == "" && n > 0 {
 			c.OK(rule, fname(fn), "GetChannelByAddr", w.pos(fn.Pos()), "non-nil only on the AddrEqual(cb.Peer, addr) edge for the returned element")
